@@ -16,6 +16,10 @@ import (
 	"github.com/bufbuild/protocompile"
 	"github.com/bufbuild/protocompile/reporter"
 	"github.com/bufbuild/protocompile/verifhooks"
+	"google.golang.org/protobuf/proto"
+	"google.golang.org/protobuf/reflect/protodesc"
+	"google.golang.org/protobuf/reflect/protoreflect"
+	"google.golang.org/protobuf/types/descriptorpb"
 )
 
 // exec: the compile executor of compiler.go under import graphs, fault plans, parallelism,
@@ -129,6 +133,52 @@ func (c *execCase) source(f string) string {
 	}
 	b.WriteString("}\n")
 	return b.String()
+}
+
+// execStagger makes the callers of a wrapped descriptor's Imports() rendezvous and then leave one
+// after the other (1 ms apart), so that one caller's import has completed when the next one starts
+type execStagger struct {
+	mu   sync.Mutex
+	n    int
+	want int
+}
+
+type execStagFile struct {
+	protoreflect.FileDescriptor
+	st *execStagger
+}
+
+func (f execStagFile) Imports() protoreflect.FileImports {
+	f.st.mu.Lock()
+	f.st.n++
+	k := f.st.n
+	f.st.mu.Unlock()
+	for deadline := time.Now().Add(20 * time.Millisecond); time.Now().Before(deadline); {
+		f.st.mu.Lock()
+		n := f.st.n
+		f.st.mu.Unlock()
+		if n >= f.st.want {
+			break
+		}
+		time.Sleep(50 * time.Microsecond)
+	}
+	if k <= 16 {
+		time.Sleep(time.Duration(k-1) * time.Millisecond)
+	}
+	return f.FileDescriptor.Imports()
+}
+
+func execDescFile(path, f string, st *execStagger) (protoreflect.FileDescriptor, error) {
+	fdp := &descriptorpb.FileDescriptorProto{
+		Name:        proto.String(path),
+		Syntax:      proto.String("proto3"),
+		MessageType: []*descriptorpb.DescriptorProto{{Name: proto.String("M_" + f)}},
+	}
+	fd, err := protodesc.NewFile(fdp, nil)
+	if err != nil {
+		return nil, err
+	}
+	return execStagFile{FileDescriptor: fd, st: st}, nil
 }
 
 type faultyReader struct {
@@ -247,6 +297,7 @@ func (execEngine) Exec(op string) string {
 	defer cancel()
 	var rmu sync.Mutex
 	calls := 0
+	stag := &execStagger{want: len(c.req)}
 	res := protocompile.ResolverFunc(func(path string) (protocompile.SearchResult, error) {
 		rmu.Lock()
 		calls++
@@ -264,6 +315,16 @@ func (execEngine) Exec(op string) string {
 			return protocompile.SearchResult{}, errors.New("injected resolve error")
 		case "resolvepanic":
 			panic("injected resolver panic " + f)
+		}
+		if c.faults[f] == "desc" {
+			// a dependency supplied as a pre-built descriptor (SearchResult.Desc); its Imports()
+			// method, which Symbols.Import calls between "already imported?" and the import proper,
+			// first lets all importers arrive and then releases them one after the other
+			fd, err := execDescFile(path, f, stag)
+			if err != nil {
+				return protocompile.SearchResult{}, err
+			}
+			return protocompile.SearchResult{Desc: fd}, nil
 		}
 		fr := &faultyReader{r: strings.NewReader(c.source(f)), failAfter: -1}
 		if c.faults[f] == "readerr" {
@@ -464,6 +525,26 @@ func (execEngine) Gen(r *Rand, tier string) [][]string {
 					}
 					add(fmt.Sprintf("compile par=%d req=%s sched=%d graph=%s faults=- cancel=%d", par, req, r.Intn(100000), g, k))
 				}
+			}
+		}
+	}
+	// (1d) one dependency supplied as a pre-built descriptor and imported by k files at once: the
+	// import of that file into the shared symbol table must succeed at every parallelism (C05/C16)
+	sreps := 1
+	if tier == "thorough" {
+		sreps = 12
+	}
+	for _, k := range []int{2, 3, 5} {
+		var ents, req []string
+		for i := 0; i < k; i++ {
+			n := string(rune('a' + i))
+			ents = append(ents, n+":s")
+			req = append(req, n)
+		}
+		g := strings.Join(ents, ";") + ";s:"
+		for _, par := range []int{1, k, 8} {
+			for i := 0; i < sreps; i++ {
+				add(fmt.Sprintf("compile par=%d req=%s sched=%d graph=%s faults=s=desc", par, strings.Join(req, ","), r.Intn(100000), g))
 			}
 		}
 	}
